@@ -144,20 +144,23 @@ Module ProdP.
 
   (* reduce projections of updated states by call-by-value over the setters only (cbn is far too slow on
      this record), then evaluate the indicators that now see constructors *)
+  (* accessors are unfolded everywhere (hypotheses too) so that both sides speak about the sub-record
+     projections *)
+  Ltac unacc := unfold inflight, sp, in_closed, ret_closed, err_closed, succ_closed, seen_err, seen_succ, sent, ap, dp, d_hold, shutting, rh, rh_buf, tp, tpq, tpq_closed, t_hold, pp, ppq, ppq_closed, p_hold, ppbuf, pp_ref, p_mark, bp, b_refs, b_in_closed, b_hold, b_buf, b_resp, b_after, br, br_set, out_closed, resp_closed, stop_closed in *.
   Ltac red_goal :=
-    cbv beta iota delta [upd_panic set_s set_infl set_app set_d set_t set_p set_mark set_b set_br set_misc done1 fresh_b tokens];
-    cbn [sM sLate sI sR sE sS s0 dH dDn tH tDn tNo pH pSt pNo pAct pLive aW bHd bRs bNo bLate bDn bSel brB brDn b2n orb andb].
+    unfold upd_panic, set_s, set_infl, set_app, set_d, set_t, set_p, set_mark, set_b, set_br, set_misc, done1, fresh_b, tokens;
+    unfold inflight, sp, in_closed, ret_closed, err_closed, succ_closed, seen_err, seen_succ, sent, ap, dp, d_hold, shutting, rh, rh_buf, tp, tpq, tpq_closed, t_hold, pp, ppq, ppq_closed, p_hold, ppbuf, pp_ref, p_mark, bp, b_refs, b_in_closed, b_hold, b_buf, b_resp, b_after, br, br_set, out_closed, resp_closed, stop_closed; cbn.
 
   Ltac go_fin :=
     match goal with I : Inv ?s |- _ =>
       pose_specs s; destr_inv I;
       match goal with Hpn : b2n (panic _) = 0 |- _ =>
         let Hp := fresh "Hp" in pose proof (b2n_0 _ Hpn) as Hp; try rewrite Hp in * end;
-      unfold tokens in *; rew_eqs s;
+      unfold tokens in *; unacc; rew_eqs s;
       cbn [sM sLate sI sR sE sS s0 dH dDn tH tDn tNo pH pSt pNo pAct pLive aW bHd bRs bNo bLate bDn bSel brB brDn b2n orb andb] in *;
       (constructor; red_goal; rew_goal s; red_goal; try lia; bool_goal; bool_hyps; try lia)
     end.
   Ltac go s H I :=
-    scbn H; unfold resolve in H;
+    scbn H; unfold resolve in H; unacc;
     step_cases H; pair_cases; bool_hyps; pair_cases; bool_hyps; go_fin.
 End ProdP.
